@@ -246,6 +246,13 @@ ILL_FORMED = {
     "duplicate-definition": ["m = [length]", "x = {a} * m", "x = {b} * m"],
     "context-parameter-unused": ["m = [length]", "s = [time]", "@context(q={a}) c", "    [length] -> [time]: value * s / m", "@end"],
     "system-unknown-unit": ["m = [length]", "@system S", "    nosuch", "@end"],
+    # block headers that are not of the documented form (invalid name, trailing junk)
+    "header:group-invalid-name": ["m = [length]", "@group test-imperial", "    y = {a} * m", "@end"],
+    "header:group-trailing-junk": ["m = [length]", "@group test junk", "    y = {a} * m", "@end"],
+    "header:system-invalid-name": ["m = [length]", "@system test-x", "    m", "@end"],
+    "header:system-trailing-junk": ["m = [length]", "@system test junk", "    m", "@end"],
+    "header:context-invalid-name": ["m = [length]", "s = [time]", "@context test-x", "    [length] -> [time]: value * {a} * s / m", "@end"],
+    "header:context-trailing-junk": ["m = [length]", "s = [time]", "@context test junk", "    [length] -> [time]: value * {a} * s / m", "@end"],
 }
 
 
@@ -267,6 +274,12 @@ def h_ill_formed(eng, kind):
         ureg = pint.UnitRegistry(lines, non_int_type=eng.ntype, on_redefinition="raise")
     except (ValueError, TypeError, KeyError, AttributeError, DefinitionSyntaxError, RedefinitionError, RecursionError):
         eng.prove(True, f"{kind}:raises-at-load")
+        return
+    if kind.startswith("header:"):
+        # loaded without complaint: then the block must not have been filed under a name that
+        # was never written (the header cut off at the first character that does not fit)
+        table = {"group": ureg._groups, "system": ureg._systems, "context": ureg._contexts}[kind.split(":")[1].split("-")[0]]
+        eng.prove("test" not in table, f"{kind}:silently-accepted-under-a-truncated-name")
         return
     # ... or at the latest on first use of what was defined
     names = [ln.split("=")[0].strip() for ln in lines if "=" in ln and not ln.startswith(("@", "[", " "))]
